@@ -7,33 +7,30 @@ SPEC = {
     "driver": "Driver/C32.lean",
     "needs_plz": True,
     "level": "proof",
-    "level_text": "PARTIAL. The local build step (prepareDirectories .. StoreTargetMetadata .. moveOutputs .. writeRuleHash .. storeInCache) is "
-                  "a LIST OF ATOMIC FILESYSTEM OPERATIONS over the target's files (metadata file written in arbitrary pieces, per output: "
-                  "tmp file, RemoveAll of the old output through arbitrary intermediate contents, rename, xattr or fallback record written "
-                  "through truncation and arbitrary partial lengths); a crash is a cut at ANY position; needsBuilding / "
-                  "readRuleHashFromXattrs are functions of the file state. FULL for the same tree (C32_recover): from any state satisfying "
-                  "the per-output history invariant, for every cut, forced rebuilds included, in every stamp mode and for file and "
-                  "directory outputs, the next plain build succeeds, leaves exactly the clean outputs and is then stable; for targets whose "
-                  "up-to-date path loads the metadata (C32_recover_readsMd) the next build succeeds likewise or — exactly when the cut left a "
-                  "non-decoding prefix of the gob under already-current stamps — fails once, removes the outputs, and the build after it "
-                  "succeeds (known finding, witness theorem, replayed on the binary). For ANY LATER TREE (edits after the crash): "
-                  "C32_crash_inv_partial + C32_main_partial prove, for xattr stamps and file outputs, that every crash state satisfies C01's "
-                  "history invariant, so any later build equals the clean build (conditional like C01 on injective hash pre-images); at this "
-                  "strength the property is REFUTED for fallback records (xattrs off / symlink outputs) and for directory outputs by two "
-                  "kernel-checked witnesses replayed on the binary (known findings). C32_recover_repeated: any number of kills in a row, each "
-                  "attempt starting from what the previous one left, still recover. C32_fixed_crash_inv / C32_fixed_metadata_never_truncated: "
-                  "the proposed repair (drop every declared output's stamp before anything destructive) restores the history invariant at "
-                  "every cut in EVERY stamp mode and for directories and closes the metadata failure. C32_interleaving: concurrent build "
-                  "steps of different targets reduce to per-target cuts. C32_writeFile_atomic: every cut of fs.WriteFile leaves the "
-                  "destination old or complete. "
-                  "Left out of the model: cache RETRIEVAL (C12/C02), targets without outputs, the post-build function's own effect, remote "
-                  "execution, filegroups, optional outputs / output directories, the copy fallback of renameFile.",
+    "level_text": "FULL on the operation-list model of the repaired build step (/repo 214f1be: removeRuleHash drops the stamp — xattr and "
+                  "fallback record — of every declared output before StoreTargetMetadata). The local build step (prepareDirectories .. "
+                  "removeRuleHash .. StoreTargetMetadata .. moveOutputs .. writeRuleHash .. storeInCache) is a LIST OF ATOMIC FILESYSTEM "
+                  "OPERATIONS over the target's files (metadata written in arbitrary pieces; per output: tmp file, stamp removal, RemoveAll "
+                  "of the old output through arbitrary intermediate contents, rename, xattr or fallback record written through truncation "
+                  "and arbitrary partial lengths); a crash is a cut at ANY position; needsBuilding / readRuleHashFromXattrs are functions of "
+                  "the file state. C32_crash_inv: every cut leaves every output in a state satisfying C01's history invariant, in every "
+                  "stamp mode (xattr / fallback record / symlink outputs) and for file and directory outputs; C32_main: hence a build of ANY "
+                  "later repository state from what any family of interrupted steps left equals the clean build (conditional like C01 on "
+                  "injective hash pre-images; one output per target as in the history model); C32_interleaving: concurrent steps reduce to "
+                  "per-target cuts. C32_recover: the next plain build of the same tree succeeds at the first attempt (post-build targets "
+                  "included: C32_metadata_never_truncated), leaves exactly the clean outputs and is stable; C32_recover_repeated: after any "
+                  "number of kills in a row. C32_before_fix_*: kernel-checked witnesses of the three former findings for the OLD order "
+                  "(theorems that held then: Lemmas/CrashUnrepaired.lean); C32_witnesses_closed: the same scenarios under the regenerated "
+                  "order. C32_writeFile_atomic: every cut of fs.WriteFile leaves the destination old or complete. Left out of the model: "
+                  "cache RETRIEVAL (C12/C02; every lookup is a miss), targets without outputs, the post-build function's own effect, remote "
+                  "execution, filegroups, optional outputs / output directories, the copy fallback of renameFile, the memoised content-hash "
+                  "xattr (fact: old outputs are re-hashed with recalc=true before the command).",
     "technique": "Lean 4 invariant proof over every prefix of an operation-list model (projection of the list onto one output's files, "
                  "classification of all crash shapes) + regenerated call-order facts + end-to-end differential correspondence with the "
                  "real plz binary killed at every filesystem operation of the build step (verif hook) and at seeded instants",
     "trusted": [
         "go/ast extractor harness/extract/c32 (order of StoreTargetMetadata / moveOutputs / calculateAndCheckRuleHash->writeRuleHash / "
-        "storeInCache after the command in buildTarget; call order inside StoreTargetMetadata, moveOutput (keep-old return before "
+        "storeInCache after the command in buildTarget, preceded by removeRuleHash (every FullOutput -> fs.RemoveAttr = remove fallback record + LRemove); old outputs re-hashed with recalc=true before the command; call order inside StoreTargetMetadata, moveOutput (keep-old return before "
         "RemoveAll), writeRuleHash (every output, then the metadata file), the read-back loop of readRuleHashFromXattrs, needsBuilding's "
         "metadata and output guards, Build -> RemoveOutputs on failure, RecordAttrFile = os.WriteFile on dir+\".rule_hash_\"+file, "
         "fs.WriteFile: MkdirAll/CreateTemp(dir of destination)/Copy/Close/Chmod/renameFile(temp, dest))",
@@ -60,9 +57,9 @@ SPEC = {
     ],
     "harness_timeout": 2400,
     "search_rounds": 1,
-    "explanation": "Three known findings (findings_inbox/C32.jsonl): fallback-record-survives-output-replacement, "
-                   "dir-output-keeps-stamp-while-being-removed (both need the tree to be reverted after the crash) and "
-                   "truncated-metadata-fails-next-build (same tree; first recovery build fails, second succeeds).",
+    "explanation": "Three findings (findings_inbox/C32.jsonl), all FIXED by /repo 214f1be: fallback-record-survives-output-replacement, "
+                   "dir-output-keeps-stamp-while-being-removed, truncated-metadata-fails-next-build; their witnesses are replayed on every run "
+                   "(corpus/C32/fixed-*.ops) and must now recover clean.",
 }
 MUTATIONS = """
 Dry-runs on scratch copies (VERIF_REPO=/var/tmp/mC32_n ./check C32 quick), all compile with and without -tags verif:
